@@ -47,6 +47,8 @@ def Step.toEStep : Step → Option EStep
   | .debugInspect => some (.map (fun x => x))
   | .debugCount => some (.map (fun x => x))
   | .debugSample _ => some (.map (fun x => x))
+  | .customOp n => some (.map (customF n))
+  | .mapSideMap => some (.map sideMapF)
   | _ => none
 
 def toESteps : List Step → Option (List EStep)
